@@ -18,9 +18,9 @@ from harness import lab, scen
 from harness.common import Ctx, driver, pmap, use_repo
 
 WRAP = '''
-import os
+_CALLS = @CALLS@      # this very file's log: a module object left over from another run would write elsewhere
 def _log(msg):
-    with open(os.environ["LADIM_VERIF_CALLS"], "a") as f:
+    with open(_CALLS, "a") as f:
         f.write(msg + "\\n")
 '''
 
@@ -60,7 +60,7 @@ def install(conf, d, style_seed):
     decoy.mkdir()
     for name, body in MODS.items():
         fn = f"verifwrap_{name}"
-        (Path(d) / f"{fn}.py").write_text(WRAP + body)
+        (Path(d) / f"{fn}.py").write_text(WRAP.replace("@CALLS@", repr(os.environ["LADIM_VERIF_CALLS"])) + body)
         (decoy / f"{fn}.py").write_text(DECOY.format(cls=CLS[name], name=name))
         style = int(r.randint(3))
         spelled = [str(Path(d) / f"{fn}.py"), fn, str(Path(d) / fn)][style]   # abs path with .py / cwd-relative name / abs path without .py
